@@ -216,7 +216,11 @@ def worker_bursts(args):
     rng = random.Random("C18/burst/%s/%d" % (seed, shard))
     for n in range(1, maxn + 1):
         if n % nshards != shard: continue
-        seq = ("initialize", "initialized", "doc_note") + ("request",) * n + ("shutdown", "exit")
+        # the burst in the main phase, behind shutdown (every request rejected with InvalidRequest), or in front of initialize (ServerNotInitialized)
+        where = rng.choice(["main", "main", "after-shutdown", "before-initialize"])
+        seq = {"main": ("initialize", "initialized", "doc_note") + ("request",) * n + ("shutdown", "exit"),
+               "after-shutdown": ("initialize", "initialized", "shutdown") + ("request",) * n + ("exit",),
+               "before-initialize": ("request",) * n + ("initialize", "initialized", "request", "shutdown", "exit")}[where]
         for delay in (None, "300", "2000", "10000"):
             env = {"VERIF_DELAY_RESPONDER_US": delay} if delay else None
             before = len(part["failures"])
